@@ -227,14 +227,19 @@ def interval_of(facts, var):
     from .sym import split_bin
     lo, hi, excl = None, None, set()
 
-    def is_var(x):
+    def strip(x):
         x = x.strip()
         while True:
             m = re.fullmatch(r"\((.*) as [A-Za-z0-9_:]+\)", x)
             if not m:
                 break
             x = m.group(1)
-        return x == var or x == "&" + var or x == "*" + var
+        return x
+    v0 = strip(var)
+
+    def is_var(x):
+        x = strip(x)
+        return x == v0 or x == "&" + v0 or x == "*" + v0
 
     def upd(op, c):
         nonlocal lo, hi
@@ -257,6 +262,12 @@ def interval_of(facts, var):
         if not isinstance(tr, bool):
             if is_var(e) and tr[0] in ("==", "!="):
                 upd("Eq" if tr[0] == "==" else "Ne", tr[1])
+            elif is_var(e) and tr[0] == "in":
+                upd("Ge", min(tr[1]))
+                upd("Le", max(tr[1]))
+            elif is_var(e) and tr[0] == "notin":
+                for c_ in tr[1]:
+                    upd("Ne", c_)
             continue
         mm = re.search(r"(is_ascii_digit|is_ascii_uppercase|is_ascii_lowercase)\((.*)\)$", e)
         if mm and is_var(mm.group(2).lstrip("&")):
@@ -307,3 +318,131 @@ def outer_view(expr, caps):
             return "«%s»" % caps[k].lstrip("&*")
         return m.group(0)
     return re.sub(r"[&*]*p1\.(\d+)", sub, expr)
+
+
+def value_set(facts, var):
+    """finite set of values `var` can have under the facts (equality / membership facts), or None when the facts do not pin it to a finite set"""
+    lo, hi, ex = interval_of(facts, var)
+    for (e, tr, g) in facts:
+        if not isinstance(tr, bool) and tr[0] == "in" and (e.strip() == var or e.strip() == re.sub(r"^\((.*) as \w+\)$", r"\1", var)):
+            return set(tr[1])
+    if lo is not None and hi is not None and hi - lo <= 64:
+        return {v for v in range(lo, hi + 1) if v not in ex}
+    return None
+
+
+# ----------------------------------------------------------------------------- lifting closure bodies into the creator's terms
+_OPT_COMB = re.compile(r"Option::<T>::(is_some_and|is_none_or|map|map_or|map_or_else|and_then|filter|inspect|take_if)$")
+_ITER_COMB = re.compile(r"(Iterator::(map|filter|any|all|find|position|for_each|try_for_each|filter_map|find_map|take_while|skip_while|flat_map|fold|try_fold|inspect|rposition)|<impl \[T\]>::(sort_by_key|sort_by_cached_key|retain)|Vec::<T, A>::retain)$")
+
+
+class Lifted:
+    """a closure of `owner` seen from the owner: captured variables and (for known combinators) the closure's argument are rewritten into the owner's symbolic values"""
+
+    def __init__(self, prog, owner, S, closure, caps, site_block, call_block, param):
+        from .sym import Sym
+        self.prog, self.owner, self.S, self.fn = prog, owner, S, closure
+        self.caps, self.site_block, self.call_block, self.param = caps, site_block, call_block, param
+        self.SC = Sym(prog, closure)
+
+    def lift(self, expr):
+        def sub(m):
+            if m.group(1) is not None:
+                k = int(m.group(1))
+                return self.caps[k].lstrip("&*") if k < len(self.caps) else m.group(0)
+            return self.param if self.param is not None else m.group(0)
+        return re.sub(r"[&*]*\bp1\.(\d+)|[&*]*\bp2\b", sub, expr)
+
+    def val(self, op):
+        return self.lift(self.SC.val(op))
+
+    def facts_at(self, block):
+        """facts of the creator at the place the closure is used + the closure's own facts at `block`, all in creator terms"""
+        outer = list(self.S.bool_facts_at(self.call_block if self.call_block is not None else self.site_block))
+        inner = [(self.lift(e), tr, g) for (e, tr, g) in self.SC.bool_facts_at(block)]
+        return outer + inner
+
+
+def lifted_closures(prog, owner, S=None):
+    from .sym import Sym
+    from .flow import derived_locals
+    S = S or Sym(prog, owner)
+    caps = closure_caps(prog, owner, S)
+    out = []
+    for b in owner.blocks:
+        if b["cleanup"]:
+            continue
+        for s in b["stmts"]:
+            r = s["rhs"]
+            if r["rv"] == "agg" and r.get("cid") in prog.fns and not s["lhs"]["p"]:
+                c = prog.fns[r["cid"]]
+                der = derived_locals(owner, {s["lhs"]["l"]})
+                call_block, param = None, None
+                for cb, t in owner.calls():
+                    if any(a.get("pl") and a["pl"]["l"] in der for a in t["args"][1:] or []):
+                        n = cname(prog, t)
+                        recv = S.val(t["args"][0])
+                        call_block = cb
+                        if _OPT_COMB.search(n):
+                            param = "%s@Some.0" % recv.lstrip("&")
+                        elif _ITER_COMB.search(n):
+                            param = "elem(%s)" % recv
+                        break
+                out.append(Lifted(prog, owner, S, c, caps.get(c.id, []), b["id"], call_block, param))
+    return out
+
+
+def unit_comparisons(prog, f, S=None):
+    """[(op, lhs, rhs, {fact expr: truth})] for every comparison in f and in the closures it builds, in f's terms"""
+    from .sym import Sym
+    S = S or Sym(prog, f)
+    out = []
+    CMP = ("Lt", "Le", "Gt", "Ge", "Eq", "Ne")
+    for bl in f.blocks:
+        if bl["cleanup"]:
+            continue
+        for s in bl["stmts"]:
+            r = s["rhs"]
+            if r["rv"] == "bin" and r["op"] in CMP:
+                out.append((r["op"], S.val(r["ops"][0]), S.val(r["ops"][1]), {e: tr for (e, tr, g) in S.bool_facts_at(bl["id"])}))
+    for L in lifted_closures(prog, f, S):
+        for bl in L.fn.blocks:
+            if bl["cleanup"]:
+                continue
+            for s in bl["stmts"]:
+                r = s["rhs"]
+                if r["rv"] == "bin" and r["op"] in CMP:
+                    out.append((r["op"], L.val(r["ops"][0]), L.val(r["ops"][1]), {e: tr for (e, tr, g) in L.facts_at(bl["id"])}))
+    return out
+
+
+def exceeds_facts(facts):
+    """[(expr, N, guard block)] for every fact meaning `expr > N` (N a constant), in any spelling: X > N, !(X <= N), N < X, !(N >= X); also X >= N+1 forms"""
+    from .sym import split_bin
+    out = []
+    for (e, tr, g) in facts:
+        if not isinstance(tr, bool):
+            continue
+        sb = split_bin(e)
+        if not sb:
+            continue
+        a, op, b = sb
+        ca = re.fullmatch(r"\(?c:(-?\d+)(?: as [a-z0-9]+\))?", a.strip())
+        cb = re.fullmatch(r"\(?c:(-?\d+)(?: as [a-z0-9]+\))?", b.strip())
+        NEG = {"Lt": "Ge", "Le": "Gt", "Gt": "Le", "Ge": "Lt"}
+        SW = {"Lt": "Gt", "Le": "Ge", "Gt": "Lt", "Ge": "Le"}
+        if op not in NEG:
+            continue
+        if cb and not ca:
+            x, n = a, int(cb.group(1))
+        elif ca and not cb:
+            x, n, op = b, int(ca.group(1)), SW[op]
+        else:
+            continue
+        if not tr:
+            op = NEG[op]
+        if op == "Gt":
+            out.append((x, n, g))
+        elif op == "Ge":
+            out.append((x, n - 1, g))
+    return out
